@@ -205,7 +205,9 @@ func genTask(rt *rapid.T) gen.Map {
 	return d
 }
 
-func genStage(rt *rapid.T, tasks, pipes []string) gen.Map {
+// genStage: prev are the effective names of the stages before it in the same pipeline; returns the stage and
+// its own effective name (explicit name, else the task's or pipeline's name).
+func genStage(rt *rapid.T, tasks, pipes, prev []string) (gen.Map, string) {
 	d := gen.Map{}
 	if rapid.IntRange(0, 9).Draw(rt, "stage_kind") < 8 {
 		d = d.Set("task", refOf(rt, "task", tasks))
@@ -219,14 +221,36 @@ func genStage(rt *rapid.T, tasks, pipes []string) gen.Map {
 		return strs(rt)
 	})
 	d = maybe(rt, d, "condition", 2, func() gen.Node { return strs(rt) })
-	if hostility > 0 {
+	// dependency edges that resolve: a subset of the stages declared before this one
+	if len(prev) > 0 && rapid.IntRange(0, 9).Draw(rt, "valid_deps") < 5 {
+		dl := gen.List{}
+		for _, p := range prev {
+			if rapid.Bool().Draw(rt, "dep") {
+				dl = append(dl, p)
+			}
+		}
+		if len(dl) == 1 && rapid.Bool().Draw(rt, "dep_scalar") {
+			d = d.Set("depends_on", dl[0])
+		} else if len(dl) > 0 {
+			d = d.Set("depends_on", dl)
+		}
+	} else if hostility > 0 {
 		d = maybe(rt, d, "depends_on", 3, func() gen.Node { return strOrList(rt) })
 	}
 	d = maybe(rt, d, "allow_failure", 2, func() gen.Node { return true })
 	d = maybe(rt, d, "dir", 3, func() gen.Node { return strs(rt) })
 	d = maybe(rt, d, "env", 3, func() gen.Node { return smap(rt) })
 	d = maybe(rt, d, "variables", 3, func() gen.Node { return smap(rt) })
-	return d
+	eff := ""
+	for _, k := range []string{"name", "task", "pipeline"} {
+		if v, ok := d.Get(k); ok {
+			if sv, isStr := v.(string); isStr && sv != "" {
+				eff = sv
+				break
+			}
+		}
+	}
+	return d, eff
 }
 
 func genContext(rt *rapid.T) gen.Map {
@@ -262,8 +286,13 @@ func genConfig(rt *rapid.T, imports []gen.Node) (gen.Map, []string, []string) {
 		pm := gen.Map{}
 		for _, p := range pipes {
 			l := gen.List{}
+			var prev []string
 			for i := rapid.IntRange(0, 3).Draw(rt, "nstages"); i > 0; i-- {
-				l = append(l, genStage(rt, tasks, pipes))
+				st, eff := genStage(rt, tasks, pipes, prev)
+				l = append(l, st)
+				if eff != "" {
+					prev = append(prev, eff)
+				}
 			}
 			pm = pm.Set(p, l)
 		}
@@ -342,13 +371,25 @@ func setAt(n gen.Node, p path, val gen.Node) gen.Node {
 }
 
 func getAt(n gen.Node, p path) gen.Node {
+	// after a "duplicate" mutation a map can hold one key twice with values of different shapes, so a path
+	// taken through the second entry need not fit the first one: such a path resolves to nothing
 	for _, k := range p {
 		switch v := n.(type) {
 		case gen.Map:
-			x, _ := v.Get(k.(string))
+			ks, ok := k.(string)
+			if !ok {
+				return nil
+			}
+			x, _ := v.Get(ks)
 			n = x
 		case gen.List:
-			n = v[k.(int)]
+			i, ok := k.(int)
+			if !ok || i >= len(v) {
+				return nil
+			}
+			n = v[i]
+		default:
+			return nil
 		}
 	}
 	return n
@@ -372,7 +413,10 @@ func delAt(n gen.Node, p path) gen.Node {
 		}
 		return setAt(n, p[:len(p)-1], nv)
 	case gen.List:
-		i := p[len(p)-1].(int)
+		i, ok := p[len(p)-1].(int)
+		if !ok || i >= len(v) {
+			return n
+		}
 		nv := append(append(gen.List{}, v[:i]...), v[i+1:]...)
 		return setAt(n, p[:len(p)-1], nv)
 	}
